@@ -15,6 +15,9 @@ import random
 
 from .. import cfgadapter, codec, common, replay, tlc, tracecheck
 
+# the process environment of every ConfigMachine run (MC_Config.MCEnviron)
+os.environ["FV"] = "0"
+
 ALL_INV = ["C01_AllValid", "C12_Fresh", "C15_Error", "C15_DictItemError"]
 ALL_PROP = ["C01_Readback", "C06_Unchanged", "C12_Marks", "C12_Reset", "C13_Isolated", "C02_Reproduces", "C11_ItemsInserted"]
 
